@@ -21,9 +21,12 @@ LEVEL = 'exploration'
 DECIDING = ['strings_judged', 'flag_pairs_judged', 'prior_strings_parsed', 'tap:_construct_prior_obs', 'prior_obs_judged',
             'prior_strings_from_least_squares', 'cobs_strings_judged', 'plain_value_strings', 'comparisons_judged',
             'float_conversions', 'zero_tests_judged', 'zero_tests_at_equality', 'plottable_views']
-RULE = ('cases: one per cell (decade of the error -15..14) x (position: 10^k(1-ulp), 10^k(1+ulp), 0.95, 0.995, 0.9995, 1.05 x 10^k, generic mantissa, '
-        'rounding carry at the requested significance) x significance 1..6 x flag "", "+", " "; per cell 8 values (0, comparable to / much larger / much smaller than the error, '
-        'anywhere in 1e-15..1e15, half-way between printed units, both signs); observables are covariance-type (value and error controlled to the ulp) and Monte-Carlo ones; '
+RULE = ('cases: one per cell (decade of the error -15..14) x (position: 10^k(1-ulp), exactly 10^k, 10^k(1+ulp), 0.95, 0.995, 0.9995, 1.05 x 10^k, generic mantissa, '
+        'rounding carry at the requested significance) x significance 1..6 x flag "", "+", " "; per cell 10 values (0, -0.0, comparable to / much larger / much smaller than the error, '
+        'anywhere in 1e-15..1e15, half-way between printed units, an exactly representable decimal tie m + 2^-(decimals+1), both signs); values also as numpy.float32 / Python int / numpy.float64 and observables built from float32 data; '
+        'str() after format() with another significance, every view again after a second analysis with other parameters and after all other observables of the case (histories); '
+        'CObs with -0.0 parts and with one observable as both parts; comparison partners float / int / numpy float64, float32, int64, int32 / 0-d array / Obs / Obs with int value / the object itself, numpy scalars on either side; '
+        'sigma as int / float / numpy scalars / bool / 0; plottable with 1..13 slices, the same observable at several slices, a stored plateau range, caller-modified earlier lists and a second analysis; observables are covariance-type (value and error controlled to the ulp) and Monte-Carlo ones; '
         'each string through format(), str(), repr() (significance 2) and the direct formatter; every string goes to the prior parser, one in three to the prior constructor, '
         'a few dozen least_squares fits take string priors. Further rows: CObs strings, plain values (no / zero / non-finite error), <, <=, >, >= against float / int / numpy scalar / Obs '
         'in both orders incl. ties, float(), is_zero_within_error (sigma 0.5..3 incl. exact equality |value| = sigma*dvalue), Corr.plottable with undefined slices. '
@@ -31,7 +34,10 @@ RULE = ('cases: one per cell (decade of the error -15..14) x (position: 10^k(1-u
 ASSUMPTIONS = ['half-unit rule with 4 ulp slack (the float is scaled by a power of ten before rounding); errors at least 10^significance print as integers (documented integer floor)',
                'the prior parser multiplies the error digits by a power of ten in floating point: 2 ulp tolerated (3 ulp after the square / square-root of cov_Obs); the value must be the correctly rounded decimal',
                'format specifications are flag + significance ("3", "+3", " 3") and the empty specification; a flag without a significance is outside the quantifier (observed: ValueError)',
-               'Python float formatting and decimal.Decimal are correct']
+               'Python float formatting and decimal.Decimal are correct',
+               'an error printed as 10^significance units is accepted only as a rounding carry (exact error below 10^significance units)',
+               'comparisons in which one side is held in single precision and the exact and the float32-rounded readings differ are borderline (numpy decides the precision), counted not judged',
+               'errors held in single precision cannot arise from an observable (dvalue is always double) and are not fed to the formatter']
 BUDGET = {'quick': 45, 'thorough': 420}
 
 PE = None
@@ -39,7 +45,7 @@ CTX = None
 STATE = {'in_fit': False}
 
 DECADES = list(range(-15, 15))
-POSITIONS = ['1-ulp', '1+ulp', '0.95', '0.995', '0.9995', '1.05', 'generic', 'carry']
+POSITIONS = ['1-ulp', '1', '1+ulp', '0.95', '0.995', '0.9995', '1.05', 'generic', 'carry']
 SIGS = [1, 2, 3, 4, 5, 6]
 FLAGS = ['', '+', ' ']
 CELLS = [(k, p, s, f) for k in DECADES for p in POSITIONS for s in SIGS for f in FLAGS]
@@ -105,7 +111,7 @@ def teardown(ctx):
 
 def plan(tier):
     m = 1 if tier == 'quick' else 24
-    return [('fmt', len(CELLS) * max(m, 2)), ('fmt_mc', 320 * m), ('cobs', 320 * m), ('plain', 96 * m), ('compare', 320 * m), ('zero', 400 * m),
+    return [('fmt', len(CELLS) * max(m, 2)), ('fmt_mc', 320 * m), ('cobs', 320 * m), ('plain', 96 * m), ('compare', 385 * m), ('zero', 480 * m),
             ('plottable', 96 * m), ('fit_priors', 48 * m)]
 
 
@@ -116,6 +122,8 @@ def error_at(k, pos, s, rng):
         return float(np.nextafter(base, 0.0))
     if pos == '1+ulp':
         return float(np.nextafter(base, np.inf))
+    if pos == '1':
+        return base                      # the double nearest to (for k >= 0: exactly) the power of ten
     if pos == 'generic':
         return base * float(rng.uniform(1.0, 10.0))
     if pos == 'carry':
@@ -133,7 +141,14 @@ def values_for(e, s, rng):
           sg() * e * 10.0 ** (-float(rng.uniform(3, 12))),
           sg() * 10.0 ** float(rng.uniform(-15, 15)),
           (int(rng.integers(-60, 60)) + 0.5) * q,
-          sg() * float(rng.integers(1, 1000)) * q]
+          sg() * float(rng.integers(1, 1000)) * q,
+          -0.0]
+    # an exact tie: m + 2^-(nd+1) ends in the digit 5 at decimal nd+1 and is exactly representable
+    nd = max(0, -int(math.floor(math.log10(e))) + s - 1)
+    if nd <= 40:
+        vs.append(sg() * (float(rng.integers(0, 64)) + 2.0 ** -(nd + 1)))
+    else:
+        vs.append(sg() * 2.0 ** -(nd + 1))
     return [float(v) for v in vs]
 
 
@@ -159,10 +174,10 @@ def report(ctx, prefix, problems, extra=None):
         ctx.violation(prefix + ':' + tag, d)
 
 
-def judge_string(ctx, s, val, dv, sig, prefix='format', extra=None):
+def judge_string(ctx, s, val, dv, sig, prefix='format', extra=None, value_ulp=None):
     ctx.ev()
     ctx.count('strings_judged')
-    pr = F.judge(s, val, dv, sig)
+    pr = F.judge(s, val, dv, sig, value_ulp=value_ulp)
     report(ctx, prefix, pr, extra)
     return not pr
 
@@ -205,8 +220,13 @@ def all_views(ctx, o, sig, flag, k_count):
     val, dv = float(o.value), float(o.dvalue)
     if not (dv > 0 and math.isfinite(dv)):
         return []
+    vulp = float(np.spacing(np.abs(o.value))) if isinstance(o.value, np.float32) else None
     s_plain = format(o, str(sig))
-    judge_string(ctx, s_plain, val, dv, sig, extra={'via': 'format(obs, %r)' % str(sig)})
+    judge_string(ctx, s_plain, val, dv, sig, extra={'via': 'format(obs, %r)' % str(sig)}, value_ulp=vulp)
+    ctx.ev()
+    f = float(o)
+    if not (type(f) is float and f == val):
+        ctx.violation('float:differs-from-central-value', {'float': repr(f), 'value': repr(o.value)})
     out = [s_plain]
     if flag:
         s_flag = format(o, flag + str(sig))
@@ -215,6 +235,14 @@ def all_views(ctx, o, sig, flag, k_count):
         if ('{:%s%d}' % (flag, sig)).format(o) != s_flag:
             ctx.violation('format:str.format-differs-from-format()', {'spec': flag + str(sig)})
         out.append(s_flag)
+    if sig != 2 and k_count % 3 == 0:
+        # a significance passed to format() must not leak into later str() / repr() / format('') calls
+        s2 = str(o)
+        judge_string(ctx, s2, val, dv, 2, 'str-after-format', {'after': 'format(obs, %r)' % (flag + str(sig))}, value_ulp=vulp)
+        ctx.ev(2)
+        if format(o, '') != s2 or repr(o) != 'Obs[' + s2 + ']':
+            ctx.violation('format:empty-specification-differs-from-two-significant-digits', {'str': s2, 'format_empty': format(o, ''), 'repr': repr(o)})
+        ctx.count('str_after_other_significance')
     if sig == 2:
         ctx.ev(3)
         if str(o) != s_plain:
@@ -231,15 +259,32 @@ def case_fmt(ctx, idx, rng):
     e = error_at(k, pos, sig, rng)
     ctx.cell('fmt', 'k=%d' % k, pos, 's=%d' % sig, 'flag=%r' % flag)
     direct = getattr(PE.obs, '_format_uncertainty', None)
+    first = None
     for j, v in enumerate(values_for(e, sig, rng)):
         o = controlled_obs(v, e)
         strings = all_views(ctx, o, sig, flag, j)
+        if first is None and strings:
+            first = (o, list(strings))
         if direct is not None:
             # the formatter itself with the error controlled to the last bit
             s_dir = direct(v, e, sig)
             judge_string(ctx, s_dir, v, e, sig, extra={'via': '_format_uncertainty', 'error': repr(e)})
             ctx.count('direct_formatter_calls')
             strings.append(s_dir)
+            # the same numbers in the representations an observable can hold them in
+            if j == 2:
+                ctx.ev()
+                if direct(np.float64(v), np.float64(e), sig) != s_dir:
+                    ctx.violation('format:numpy-float64-arguments-print-differently', {'value': repr(v), 'error': repr(e)})
+            elif j == 3:
+                v32 = np.float32(v)
+                if np.isfinite(v32):
+                    judge_string(ctx, direct(v32, e, sig), float(v32), e, sig, extra={'via': '_format_uncertainty, float32 value', 'error': repr(e)})
+                    ctx.count('float32_values_formatted')
+            elif j == 5 and abs(v) < 1e15:
+                vi = int(round(v))
+                judge_string(ctx, direct(vi, e, sig), float(vi), e, sig, extra={'via': '_format_uncertainty, Python int value', 'error': repr(e)})
+                ctx.count('int_values_formatted')
         for s in dict.fromkeys(strings):
             judge_parser(ctx, s)
         if (idx + j) % 3 == 0 and strings:
@@ -248,6 +293,14 @@ def case_fmt(ctx, idx, rng):
             ctx.nontrivial.add(digest('fmt', repr(v), repr(e), sig, flag))
         if j == 1:
             ctx.sample({'value': float(o.value), 'dvalue': float(o.dvalue), 'significance': sig, 'flag': flag, 'strings': strings})
+    if first is not None:
+        # the first observable printed again after all the others (a cache keyed by a summary of the numbers would show here)
+        o, was = first
+        ctx.ev()
+        ctx.count('strings_reproduced_later')
+        now = [format(o, str(sig))] + ([format(o, flag + str(sig))] if flag else [])
+        if now != was[:len(now)]:
+            ctx.violation('format:same-observable-prints-differently-later', {'was': was, 'now': now})
 
 
 def case_fmt_mc(ctx, idx, rng):
@@ -255,9 +308,28 @@ def case_fmt_mc(ctx, idx, rng):
     flag = FLAGS[idx % 3]
     se = 10.0 ** float(rng.uniform(-15, 15))
     sv = float(rng.choice([-1, 1])) * (se * 10.0 ** float(rng.uniform(-3, 6)) if rng.random() < 0.6 else 10.0 ** float(rng.uniform(-15, 15)))
-    o = mc_obs(rng, sv, se, str(rng.choice(['E1', 'A|r1', 'ens'])))
+    if idx % 4 == 1 and 1e-30 < abs(sv) < 1e30:
+        # data held in single precision: the observable's value is a numpy.float32
+        n = int(rng.integers(8, 40))
+        o = PE.Obs([(rng.normal(size=n) * se * math.sqrt(n) + sv).astype(np.float32)], ['E1'])
+        o.gamma_method()
+        ctx.cell('fmt_mc', 'float32-data')
+        ctx.count('float32_observables')
+    else:
+        o = mc_obs(rng, sv, se, str(rng.choice(['E1', 'A|r1', 'ens'])))
     ctx.cell('fmt_mc', 's=%d' % sig, 'flag=%r' % flag)
     strings = all_views(ctx, o, sig, flag, 0)
+    # analysed again with other parameters: every view must follow the error now stored, not the one printed before
+    dv0 = float(o.dvalue)
+    o.gamma_method(S=0.0 if idx % 2 else 3.0)
+    if float(o.dvalue) != dv0:
+        ctx.count('reanalysed_with_changed_error')
+    all_views(ctx, o, sig, flag, 0)
+    o.gamma_method()
+    back = all_views(ctx, o, sig, flag, 3)
+    ctx.ev()
+    if float(o.dvalue) == dv0 and back[:len(strings)] != strings:
+        ctx.violation('format:same-observable-prints-differently-later', {'was': strings, 'now': back})
     for s in dict.fromkeys(strings):
         judge_parser(ctx, s)
     if strings:
@@ -284,12 +356,21 @@ def case_cobs(ctx, idx, rng):
         else:
             n = int(rng.integers(8, 30))
             parts.append(PE.Obs([rng.normal(size=n) * e * math.sqrt(n) + v], ['E1']))
+    special = {7: 'minus-zero-imag', 9: 'same-observable-twice', 11: 'minus-zero-real'}.get(idx % 16, 'generic')
+    if special == 'minus-zero-imag':
+        parts[1] = -1 * PE.cov_Obs(0.0, float(parts[1].value if parts[1].value else 1.0) ** 2 + 1e-300, 'cvC1')      # value -0.0, error > 0
+    elif special == 'minus-zero-real':
+        parts[0] = -1 * PE.cov_Obs(0.0, float(parts[0].value if parts[0].value else 1.0) ** 2 + 1e-300, 'cvC0')
+    elif special == 'same-observable-twice':
+        parts[1] = parts[0]
     c = PE.CObs(parts[0], parts[1])
     c.gamma_method()
     re, im = c.real, c.imag
     ctx.cell('cobs', 's=%d' % sig, 'flag=%r' % flag)
+    ctx.cell('cobs', special)
+    always_str = special != 'generic'
     views = [('format', format(c, flag + str(sig)), sig, flag)]
-    if idx % 3 == 0:
+    if idx % 3 == 0 or always_str:
         views.append(('str', str(c), 2, ''))
         views.append(('format-empty', format(c, ''), 2, ''))
         ctx.ev()
@@ -300,7 +381,11 @@ def case_cobs(ctx, idx, rng):
         ctx.count('cobs_strings_judged')
         sp = F.split_complex(s)
         if sp is None:
-            ctx.violation('cobs:not-of-the-form-(re(err)+-im(err)j)', {'string': s, 'via': via})
+            if '+-' in s and float(im.value) == 0 and math.copysign(1.0, float(im.value)) < 0:
+                # cause re-checked on the witness: the imaginary part is -0.0 and a '+' was put in front of its '-'
+                ctx.violation('cobs:plus-sign-in-front-of-minus-zero-imaginary-part', {'string': s, 'via': via, 'imag': repr(im.value)})
+            else:
+                ctx.violation('cobs:not-of-the-form-(re(err)+-im(err)j)', {'string': s, 'via': via})
             continue
         judge_string(ctx, sp[0], float(re.value), float(re.dvalue), sg, 'cobs:real', {'string': s, 'via': via})
         judge_string(ctx, sp[1], float(im.value), float(im.dvalue), sg, 'cobs:imag', {'string': s, 'via': via})
@@ -379,13 +464,21 @@ OPS = [('<', operator.lt), ('<=', operator.le), ('>', operator.gt), ('>=', opera
 def case_compare(ctx, idx, rng):
     e = 10.0 ** float(rng.uniform(-15, 15))
     v = float(rng.choice([-1, 1])) * 10.0 ** float(rng.uniform(-15, 15))
-    o = controlled_obs(v, e) if idx % 2 else mc_obs(rng, v, e)
+    if idx % 5 == 4 and 1e-30 < abs(v) < 1e30:
+        o = PE.Obs([(rng.normal(size=12) * e + v).astype(np.float32)], ['E1'])      # value held as numpy.float32
+        o.gamma_method()
+    else:
+        o = controlled_obs(v, e) if idx % 2 else mc_obs(rng, v, e)
     val = float(o.value)
     rel = ['tie', 'below-within-error', 'above-within-error', 'far-below', 'far-above', 'next-float-below', 'next-float-above'][idx % 7]
     dv = float(o.dvalue)
     other = {'tie': val, 'below-within-error': val - 0.3 * dv, 'above-within-error': val + 0.3 * dv, 'far-below': val - 10 * dv - abs(val),
              'far-above': val + 10 * dv + abs(val), 'next-float-below': float(np.nextafter(val, -np.inf)), 'next-float-above': float(np.nextafter(val, np.inf))}[rel]
-    ptype = ['float', 'np.float64', 'Obs', 'int', 'Obs-mc'][(idx // 7) % 5]
+    ptype = ['float', 'np.float64', 'Obs', 'int', 'Obs-mc', 'np.float32', 'np.int64', 'np.int32', '0-d array', 'Obs-int-value', 'self'][(idx // 7) % 11]
+    if ptype in ('np.int64', 'Obs-int-value') and not abs(other) < 9e15 or ptype == 'np.int32' and not abs(other) < 2e9:
+        ptype = 'float'                                  # integers that the type cannot hold exactly
+    if ptype == 'np.float32' and not (abs(other) < 3e38 and (other == 0 or abs(other) > 1e-37)):
+        ptype = 'float'
     if ptype == 'float':
         partner, pval = float(other), float(other)
     elif ptype == 'np.float64':
@@ -396,6 +489,20 @@ def case_compare(ctx, idx, rng):
     elif ptype == 'Obs':
         partner = controlled_obs(other, 10.0 ** float(rng.uniform(-15, 15)), 'cvP')
         pval = float(partner.value)
+    elif ptype == 'np.float32':
+        partner = np.float32(other)
+        pval = float(partner)
+    elif ptype in ('np.int64', 'np.int32'):
+        pval = int(round(other))
+        partner = getattr(np, ptype[3:])(pval)
+    elif ptype == '0-d array':
+        partner, pval = np.array(float(other)), float(other)
+    elif ptype == 'Obs-int-value':
+        pval = int(round(other))
+        partner = PE.cov_Obs(pval, 1, 'cvI')              # an observable whose central value is a Python int
+        partner.gamma_method()
+    elif ptype == 'self':
+        partner, pval = o, val                            # the same object on both sides
     else:
         n = 10
         x = rng.normal(size=n)
@@ -406,16 +513,18 @@ def case_compare(ctx, idx, rng):
     for name, op in OPS:
         ctx.ev(2)
         ctx.count('comparisons_judged', 2)
-        got = op(o, partner)
-        exp = op(val, pval)
-        if bool(got) != exp or not isinstance(got, (bool, np.bool_)):
-            ctx.violation('compare:Obs%sother-differs-from-value-comparison' % name, {'value': repr(val), 'other': repr(pval), 'partner': ptype, 'got': repr(got), 'relation': rel})
-        if ptype == 'np.float64':
-            continue          # numpy scalar on the left dispatches through numpy, not through Obs
-        got = op(partner, o)
-        exp = op(pval, val)
-        if bool(got) != exp or not isinstance(got, (bool, np.bool_)):
-            ctx.violation('compare:other%sObs-differs-from-value-comparison' % name, {'value': repr(val), 'other': repr(pval), 'partner': ptype, 'got': repr(got), 'relation': rel})
+        # exact comparison of the central values.  When one side is held in single precision numpy may decide the
+        # comparison after rounding the other side to single precision as well (a Python float is a "weak" scalar): where
+        # the two readings differ the decision lies within the rounding of the float32 operand - borderline, not judged.
+        pobj = partner.value if hasattr(partner, 'value') and hasattr(partner, 'deltas') else partner
+        f32 = isinstance(o.value, np.float32) or isinstance(pobj, np.float32)
+        for got, exp, a32, b32, tag in ((op(o, partner), op(val, pval), val, pval, 'compare:Obs%sother-differs-from-value-comparison' % name),
+                                        (op(partner, o), op(pval, val), pval, val, 'compare:other%sObs-differs-from-value-comparison' % name)):
+            if f32 and bool(op(np.float32(a32), np.float32(b32))) != exp:
+                ctx.count('comparisons_borderline_within_float32_rounding')
+                continue
+            if bool(got) != exp or not isinstance(got, (bool, np.bool_)):
+                ctx.violation(tag, {'value': repr(val), 'other': repr(pval), 'partner': ptype, 'got': repr(got), 'relation': rel})
     ctx.ev()
     ctx.count('float_conversions')
     f = float(o)
@@ -427,8 +536,8 @@ def case_compare(ctx, idx, rng):
 
 def case_zero(ctx, idx, rng):
     how = ['tie', 'inside', 'outside', 'random', 'random-mc'][idx % 5]
-    sigma = [1, 2, 3, 0.5, 1.5, None][(idx // 5) % 6]
-    sg = 1 if sigma is None else sigma
+    sigma = [1, 2, 3, 0.5, 1.5, None, np.float64(2.5), np.int64(2), 0, np.float32(0.5), True][(idx // 5) % 11]
+    sg = 1 if sigma is None else float(sigma)
     if how == 'tie':
         # |value| = sigma * dvalue exactly: error a power of two times a small integer, so that the product is exact
         e = float(rng.choice([0.5, 1.0, 2.0, 1.5, 0.25, 3.0, 1024.0, 2.0 ** -20, 2.0 ** -40, 3 * 2.0 ** 30]))
@@ -448,6 +557,13 @@ def case_zero(ctx, idx, rng):
     val, dv = float(o.value), float(o.dvalue)
     got = o.is_zero_within_error() if sigma is None else o.is_zero_within_error(sigma)
     exp = abs(val) <= sg * dv
+    # an explicit sigma must neither be remembered nor be overridden by what was asked before
+    other_sigma = 7 if sg != 7 else 3
+    o.is_zero_within_error(other_sigma)
+    again = o.is_zero_within_error() if sigma is None else o.is_zero_within_error(sigma)
+    ctx.ev()
+    if bool(again) != bool(got):
+        ctx.violation('is_zero_within_error:answer-depends-on-earlier-calls', {'value': repr(val), 'dvalue': repr(dv), 'sigma': repr(sigma), 'first': bool(got), 'later': bool(again)})
     ctx.ev()
     ctx.count('zero_tests_judged')
     if how == 'tie':
@@ -472,12 +588,14 @@ def case_zero(ctx, idx, rng):
 
 
 def case_plottable(ctx, idx, rng):
-    T = int(rng.integers(3, 14))
+    T = int(rng.integers(3, 14)) if idx % 8 else int(rng.integers(1, 3))          # also one- and two-slice correlators
     pattern = ['none', 'padding', 'interior', 'many'][idx % 4]
+    if T < 3 and pattern in ('interior', 'many'):
+        pattern = 'padding'
     content = []
     for t in range(T):
-        e = 10.0 ** float(rng.uniform(-6, 2))
-        v = float(rng.normal()) * 10.0 ** float(rng.uniform(-6, 6))
+        e = 10.0 ** float(rng.uniform(-15, 15))
+        v = float(rng.normal()) * 10.0 ** float(rng.uniform(-15, 15))
         if idx % 3 == 0:
             content.append(PE.cov_Obs(v, e * e, 'cvK'))
         else:
@@ -493,8 +611,16 @@ def case_plottable(ctx, idx, rng):
             content[int(t)] = None
         if all(c is None for c in content):
             content[0] = PE.cov_Obs(1.0, 0.01, 'cvK')
+    if idx % 5 == 3 and T >= 3:
+        # the same observable at several timeslices
+        src = next(c for c in content if c is not None)
+        content = [None if c is None else (src if t % 2 else c) for t, c in enumerate(content)]
+        ctx.cell('plottable', 'same-observable-at-several-slices')
     corr = PE.Corr(content, padding=pad)
     corr.gamma_method()
+    if idx % 3 == 1 and corr.T >= 3:
+        corr.set_prange([1, corr.T - 2])          # a stored plateau range must not restrict the plottable view
+        ctx.cell('plottable', 'prange-set')
     x, y, dy = corr.plottable()
     ctx.count('plottable_views')
     ctx.cell('plottable', pattern)
@@ -516,6 +642,20 @@ def case_plottable(ctx, idx, rng):
     ctx.ev()
     if ex != ein or corr.T != T + pad[0] + pad[1]:
         ctx.violation('plottable:timeslices-differ-from-defined-slices', {'got': ex, 'input_defined': ein, 'T': corr.T})
+    # the lists handed out are the caller's: changing them must not show in a later view; a later analysis must show
+    for l in (x, y, dy):
+        if isinstance(l, list) and l:
+            l[0] = -12345
+            l.append(0)
+    corr.gamma_method(S=0.0 if idx % 2 else 3.0)
+    x2, y2, dy2 = corr.plottable()
+    edy2 = [float(c[0].dvalue) for c in corr.content if c is not None]
+    ctx.ev(2)
+    ctx.count('plottable_views_repeated')
+    if list(x2) != ex or [float(v) for v in y2] != ey:
+        ctx.violation('plottable:later-view-differs(caller-changed-the-earlier-lists)', {'got_x': list(x2), 'expected_x': ex})
+    if [float(v) for v in dy2] != edy2:
+        ctx.violation('plottable:errors-differ-from-dvalue', {'got': [float(v) for v in dy2], 'expected': edy2, 'note': 'after a second analysis'})
     if any(v > 0 for v in edy):
         ctx.nontrivial.add(digest('plottable', ex, ey, edy))
     ctx.sample({'T': corr.T, 'pattern': pattern, 'x': list(x), 'y': [float(v) for v in y][:4], 'dy': [float(v) for v in dy][:4]})
@@ -535,6 +675,10 @@ def case_fit_priors(ctx, idx, rng):
     pobs = [controlled_obs(a * (1 + 0.05 * float(rng.normal())), abs(a) * 10.0 ** float(rng.uniform(-3, 0))),
             controlled_obs(b * (1 + 0.05 * float(rng.normal())), abs(b) * 10.0 ** float(rng.uniform(-3, 0)))]
     strings = [format(o, f + str(s)) for o, f, s in zip(pobs, flags, sigs)]
+    if idx % 6 == 5:
+        strings = [strings[0], strings[0]]          # the same string (object) in two slots: two independent priors with equal numbers
+        pobs = [pobs[0], pobs[0]]
+        sigs = [sigs[0], sigs[0]]
     for o, s_, sg in zip(pobs, strings, sigs):
         judge_string(ctx, s_, float(o.value), float(o.dvalue), sg, extra={'via': 'prior string'})
 
@@ -563,6 +707,10 @@ def case_fit_priors(ctx, idx, rng):
             continue
         judge_prior_obs(ctx, str(strings[pos]), p, den)
         ctx.count('fit_priors_compared')
+    if len(items) == 2:
+        ctx.ev()
+        if set(items[0][1].names) & set(items[1][1].names):
+            ctx.violation('prior:two-string-priors-share-a-covariance-name', {'names': [list(i[1].names) for i in items], 'strings': [str(t) for t in strings]})
     ctx.nontrivial.add(digest('fit', strings, form))
     ctx.sample({'priors': [str(s) for s in strings], 'form': form, 'fit_priors': [[float(p.value), float(p.dvalue)] for _, p in items]})
 
